@@ -43,6 +43,9 @@ MUTANTS = [
      "unwritten_content_start_pos += insert_pos - unwritten_content_start_pos;", "unwritten_content_start_pos = insert_pos + 1;", "cursor skips a byte"),
     ("c03-write", ["C03", "C07"], G,
      "                .write_all(insertable_ref_id_string.as_bytes())\n", "                .write(insertable_ref_id_string.as_bytes())\n", "partial write of the token"),
+    ("c03-number-padded", ["C03"], CP, 'result.push_str(format!("{}", reference_id).as_str());', 'result.push_str(format!("{:02}", reference_id).as_str());', "zero-padded number in the key-value token"),
+    ("c03-suffix-first", ["C03"], CP, "                result.push_str(suffix);", "                result.insert_str(0, suffix);", "suffix put in front"),
+    ("c03-prefix-twice", ["C03"], CP, "                result.push_str(prefix);", "                result.push_str(prefix);\n                result.push_str(prefix);", "prefix appended twice"),
     ("c03-token-space", ["C03", "C12"], CP,
      'result.push_str(&format!("[ref: {}] ", reference_id));', 'result.push_str(&format!("[ref:{}] ", reference_id));', "token spelling"),
     # ---- C04
